@@ -257,7 +257,12 @@ func runClosest(vec map[string]interface{}) map[string]interface{} {
 	}
 	obs["err"] = errStr(err)
 	if gBool(vec, "cli") && err == nil {
-		args := []string{"closest", "--query", "@q.fa", "--target", "@t.fa", "-m", measure, "-t", itoa(threads)}
+		// the measure is matched without regard to case by the command
+		mArg := measure
+		if (len(qs)+len(ts)+n)%3 == 0 {
+			mArg = strings.ToUpper(measure)
+		}
+		args := []string{"closest", "--query", "@q.fa", "--target", "@t.fa", "-m", mArg, "-t", itoa(threads)}
 		args = flagInt(args, "-n", n, 0)
 		if dthou >= 0 {
 			if measure == "snp" {
